@@ -171,13 +171,14 @@ Definition handshake (c : config) (o : oracles) (wfail : nat -> bool) (script : 
 
 Inductive effect :=
 | EResetStream
-| EClosePeer                         (* host.Network().ClosePeer(peerID): the connection is refused *)
+| EClosePeer                         (* host.Network().ClosePeer(peerID): ALL connections of that peer id are closed *)
 | EBlock (d : Z)                     (* blockPeer(peerID, d, _); 0 = for ever *)
 | ERegister (a : bytes) (t : Z)      (* peers.addPeer created the registry entry *)
 | ENotify (a : bytes) (t : Z)        (* notifier.Connected(peer) *)
 | EReturnPeer (a : bytes) (t : Z)    (* Connect returns the peer to its caller *)
 | EReturnErr (c : refusal)           (* Connect returns the handshake's error *)
-| EReturnNotFound.                   (* Connect returns p2p.ErrPeerNotFound (nothing registered) *)
+| EReturnNotFound                    (* Connect returns p2p.ErrPeerNotFound (nothing registered) *)
+| ENotifyGone (a : bytes) (t : Z).   (* notifier.Disconnected(peer): the registry dropped the entry *)
 
 (* outcome of peers.addPeer(conn, peer) (pkg/p2p/libp2p/peers.go) *)
 Inductive add_res :=
@@ -308,7 +309,8 @@ Definition session (c : config) (steps : list step) : list run := map (run_step 
 (* ---- one remote over time: the registry entry, Connect's short cut --------------------------------
    State: the entry of the peer registry for this remote (overlays[peer id] with a tracked
    connection), None when absent.  Events: an inbound handshake stream (handleConnectReq), a call
-   of Connect, the loss of the last connection (peerRegistry.Disconnected).  [closed] = the
+   of Connect, the loss of the last connection (peerRegistry.Disconnected).  The remote may hold
+   several transport connections; the entry stands for all of them.  [closed] = the
    connection of that handshake has already closed when addPeer runs.  Connect first asks
    peers.isConnected(peer id): a present entry is returned to the caller as it is, without any
    handshake. *)
@@ -324,10 +326,19 @@ Definition add_outcome (entry : option (bytes * Z)) (closed : bool) : add_res * 
   | None => if closed then (NotAdded, false) else (Added, true)
   end.
 
+(* a refused handshake closes every connection of the peer (EClosePeer), so the registry loses the
+   remote's entry -- also one that an earlier handshake on another connection had created *)
 Definition entry_after (entry : option (bytes * Z)) (add : add_res) (r : result) : option (bytes * Z) :=
-  match r, add with
-  | Enrol a t, Added => Some (a, t)
-  | _, _ => entry
+  match r with
+  | Enrol a t => match add with Added => Some (a, t) | NotAdded => entry end
+  | Refuse _ => None
+  end.
+
+(* ... and the rest of the node is told so (peerRegistry.Disconnected -> notifier.Disconnected) *)
+Definition eviction (entry : option (bytes * Z)) (r : result) : list effect :=
+  match r, entry with
+  | Refuse _, Some (a, t) => [ENotifyGone a t]
+  | _, _ => []
   end.
 
 Definition node_step (c : config) (entry : option (bytes * Z)) (ev : event)
@@ -337,7 +348,7 @@ Definition node_step (c : config) (entry : option (bytes * Z)) (ev : event)
   | EvInbound o wfail script has_notifier closed =>
       let r := res (handle c o wfail script) in
       let add := fst (add_outcome entry closed) in
-      (entry_after entry add r, handle_connect_req has_notifier add r)
+      (entry_after entry add r, handle_connect_req has_notifier add r ++ eviction entry r)
   | EvConnect o wfail script closed =>
       match entry with
       | Some (a, t) => (entry, [EReturnPeer a t])          (* isConnected short cut *)
